@@ -6,7 +6,7 @@ import os
 
 from . import common as C
 
-THEOREMS = ["ShipVerif.Avahi.C19_resume", "ShipVerif.Avahi.C19_shutdown_final", "ShipVerif.Avahi.cfg_fixed", "ShipVerif.Avahi.inv_run",
+THEOREMS = ["ShipVerif.Avahi.C19_resume", "ShipVerif.Avahi.C19_shutdown_final", "ShipVerif.Avahi.C19_results_reported", "ShipVerif.Avahi.invL_run", "ShipVerif.Avahi.cfg_fixed", "ShipVerif.Avahi.inv_run",
             "ShipVerif.Avahi.C19_pinned_resurrects_announcement", "ShipVerif.Avahi.C19_pinned_restart_after_shutdown"]
 
 
@@ -19,7 +19,7 @@ def check(pid, tier, seed):
     R.assumptions = [
         "go-avahi / D-Bus are replaced by a harness implementation of avahi.ServerInterface: Setup fails while the daemon is away, a new Setup starts a fresh session (older browsers and entry groups are gone), a lost daemon is reported once through the Disconnected event",
         "the manager starts a provider that is not running and announces only through a running provider (MdnsManager does); concurrent Disconnected events for one outage are not modelled",
-        "one reconnect attempt per second: a `tick` in the engine waits for the provider's own loop to make its next attempt",
+        "one reconnect attempt per second: a `tick` in the engine waits for the provider's own loop to make its next attempt; the engine does not start a provider again while a reconnect loop of its previous life is still asleep (the model and its theorems do cover that)",
     ]
     changed, err = C.regen_facts()
     p = C.lake_build(["ShipVerif.Props.C19", "shipdrv"])
@@ -37,12 +37,16 @@ def check(pid, tier, seed):
     total, bad, diffs, shapes, samples = 0, [], [], set(), []
     for s, n, ev in runs:
         fin, fimpl, fmodel = [os.path.join(d, x) for x in ("avahi_in.txt", "avahi_impl.txt", "avahi_model.txt")]
-        q = C.run([C.HARNESS, "avahistep", "-seed", str(s), "-n", str(n), "-events", str(ev), "-workers", str(min(n, 200)), "-in", fin, "-impl", fimpl], cwd=d, timeout=C.engine_timeout())
+        q = C.run([C.HARNESS, "avahistep", "-seed", str(s), "-n", str(n), "-events", str(ev), "-workers", str(min(n, 200)), "-in", fin, "-impl", fimpl, "-shut", os.path.join(d, "avahi_shutdown.txt"), "-shutdowns", "60" if tier == "quick" else "600"], cwd=d, timeout=C.engine_timeout())
         if q.returncode != 0:
             R.violation({"property": pid, "kind": "harness avahistep crashed", "detail": (q.stdout or "")[-2000:]}, "crash")
             continue
         with open(fin) as f, open(fmodel, "w") as g:
             C.run([C.SHIPDRV, "avahi"], stdin=f, stdout=g, check=lean_ok)
+        for l in open(os.path.join(d, "avahi_shutdown.txt")):
+            total += 1
+            if l.startswith("BAD"):
+                bad.append({"seed": s, "history": ["start", "announce 1", "browse results streaming in / one result in flight", "shutdown"], "why": l.strip()})
         ins = open(fin).read().splitlines()
         impl = open(fimpl).read().splitlines()
         model = open(fmodel).read().splitlines() if os.path.exists(fmodel) else []
@@ -100,7 +104,7 @@ def check(pid, tier, seed):
         "theorems": aud,
         "evaluations": total,
         "distinct_nontrivial": len(shapes),
-        "rule": "one evaluation = one event (start, daemon down/up, reconnect tick, announce, unannounce, shutdown) applied to a real AvahiProvider with an injected fake daemon, daemon-side state compared with the Lean model; distinct = distinct windows of three consecutive event kinds",
+        "rule": "one evaluation = one event (start, daemon down/up, reconnect tick, announce, unannounce, browse result, shutdown) applied to a real AvahiProvider with an injected fake daemon, daemon-side state compared with the Lean model; distinct = distinct windows of three consecutive event kinds",
         "samples": samples,
         "facts_changed": changed,
     }
